@@ -107,6 +107,7 @@ pub type NativeFn = fn(&mut NativeSrc);
 macro_rules! harnesses {
     ($( $name:ident [ $kind:ident $unwind:literal ] => $f:path ; )*) => {
         $( harnesses!(@one $name $kind $unwind $f); )*
+        #[cfg(not(kani))]
         pub const REGISTRY: &[(&str, NativeFn)] = &[ $( (stringify!($name), $f as NativeFn), )* ];
     };
     (@one $name:ident stub $unwind:literal $f:path) => {
@@ -116,6 +117,7 @@ macro_rules! harnesses {
         #[kani::stub(alloc::fmt::format, crate::fmt_stub)]
         pub fn $name() { let mut s = KaniSrc; $f(&mut s); }
     };
+    (@one $name:ident native $unwind:literal $f:path) => {};
     (@one $name:ident nostub $unwind:literal $f:path) => {
         #[cfg(kani)]
         #[kani::proof]
@@ -129,8 +131,13 @@ pub mod refcbor_dec;
 pub mod common;
 pub mod c11;
 pub mod c14;
+#[cfg(not(kani))]
+pub mod e2n;
 
 harnesses! {
+    e2n_min_fee_for_size [native 0] => e2n::min_fee_for_size;
+    e2n_ex_units_cost [native 0] => e2n::ex_units_cost;
+    e2n_ref_script_fee [native 0] => e2n::ref_script_fee;
     c11_enc_base [stub 4] => c11::enc_base;
     c11_enc_enterprise [stub 4] => c11::enc_enterprise;
     c11_enc_reward [stub 4] => c11::enc_reward;
